@@ -19,7 +19,7 @@ import (
 	"verifharness/rig"
 )
 
-var c06alphabet = []string{"G", "Gc", "X", "C", "E4", "E5", "Gd"}
+var c06alphabet = []string{"G", "Gc", "X", "C", "E4", "E5", "Gd", "Gh"}
 
 // validator kinds of a resource
 var c06kinds = []string{"both", "etag", "lastmod", "none", "weak"}
@@ -170,6 +170,10 @@ func c06hist(r *core.Recorder, p *rig.ProxyRig, o *rig.Origin, w *c06world, mode
 			if i%2 == 1 {
 				q.Header = [][2]string{{"If-Match", c06sentinelTag}, {"If-Unmodified-Since", c06sentinelDate}}
 			}
+		case "Gh":
+			// the client names the conditional header fields in its Connection header (hop-by-hop nomination):
+			// that concerns the client's own fields, never the validators the proxy itself adds upstream
+			q.Header = [][2]string{{"Connection", "If-None-Match, If-Modified-Since"}}
 		case "Gd":
 			// the obsolete but valid RFC 850 date form
 			q.Header = [][2]string{{"If-Modified-Since", c06sentinel850}}
@@ -415,7 +419,7 @@ func init() {
 	core.Register(&core.Monitor{
 		ID:    "C06",
 		Level: "exploration",
-		Rule: "per resource: an initial GET followed by every sequence up to <depth> over {G, Gc (client If-None-Match/If-Modified-Since or If-Match/If-Unmodified-Since carrying sentinels), Gd (same with RFC 850 dates / weak tag), X (force-expire the stored entry), C (origin changes content and validators), E4, E5 (origin answers the next request 404 / 500)} plus seeded random sequences up to depth+10, " +
+		Rule: "per resource: an initial GET followed by every sequence up to <depth> over {G, Gc (client If-None-Match/If-Modified-Since or If-Match/If-Unmodified-Since carrying sentinels), Gd (same with RFC 850 dates / weak tag), Gh (client Connection header nominating the conditional field names), X (force-expire the stored entry), C (origin changes content and validators), E4, E5 (origin answers the next request 404 / 500)} plus seeded random sequences up to depth+10, " +
 			"for each validator kind {ETag+Last-Modified, ETag only, Last-Modified only, none, weak ETag}, both backends, plain (all) and tunnel (every 4th). A sequential model of what the proxy must hold predicts every origin-side request (validators) and client response. Non-trivial = distinct history with at least one revalidation.",
 		Assumptions: []string{"entries are made stale through the tag-guarded expiry accessor instead of sleeping; the lifetime logic itself is C03's subject", "when the origin sent no Last-Modified, If-Modified-Since may be absent or the receipt time",
 			"a request reaching the origin although the entry is fresh is not judged here (C03/C04)"},
